@@ -89,17 +89,16 @@ Fixpoint min_read (l : list sub) : nat :=
   | s :: t => match t with [] => sb_nread s | _ => Nat.min (sb_nread s) (min_read t) end
   end.
 
-Definition sb_waits_le (lowest : nat) (s : sub) : bool :=
-  match sb_wait s with Some x => x <=? lowest | None => false end.
+(* a subscriber waits for a message number that is buffered (it just has not woken up yet) *)
+Definition sb_waits_in (b : list (nat * msg)) (s : sub) : bool :=
+  match sb_wait s with Some x => has_msg b x | None => false end.
 Definition sb_drives (s : sub) : bool :=
   sb_drive s && match sb_wait s with Some _ => true | None => false end.
-(* _can_fetch *)
+(* _can_fetch (as repaired by ede7cda: `x in buffered` instead of `x <= self._lowest_msg_number`) *)
 Definition mb_can_fetch (m : mbox) : bool :=
   if mb_killed m then true
-  else match mb_box m with
-       | (lowest, _) :: _ => if existsb (sb_waits_le lowest) (mb_subs m) then false else existsb sb_drives (mb_subs m)
-       | [] => existsb sb_drives (mb_subs m)
-       end.
+  else if existsb (sb_waits_in (mb_box m)) (mb_subs m) then false
+  else existsb sb_drives (mb_subs m).
 Definition mb_room (m : mbox) : bool := length (mb_box m) <? mb_cap m.
 Definition mb_can_write (m : mbox) : bool := mb_room m || mb_killed m.
 
